@@ -29,6 +29,7 @@ mod imptree;
 mod camtgen;
 mod c18;
 mod c15;
+mod caldate;
 mod child;
 mod parseobs;
 mod pgen;
